@@ -736,3 +736,38 @@ def idx_r12(ctx):
         ctx.check(mir.short(p), ok, "each entry is keyed by the indexed entity's own name and holds the state built for that same entity",
                   got=got, want=(keys[0], state_prefix + ".."), key="own-key")
     ctx.floor("by-name tables keyed by own name", n, 3)
+
+
+def idx_r13(ctx):
+    """the execution-link table: `ExecutionBuilder::build` walks ALL indexed exchanges in index order and gives each one the
+    transmitter that was registered UNDER THAT EXCHANGE'S OWN ID (a keyed lookup), or None - independent of the order in which the
+    executions were added; `add_execution` registers the transmitter under the exchange it was built for"""
+    EB = "barter::execution::builder::ExecutionBuilder"
+    bd = ctx.find(name="build", self_adt=EB, trait="")
+    b = ctx.ibody(bd)
+    rt = b.return_term()
+    fl = dict(zip(rt[2], rt[3])) if rt[0] == "agg" else {}
+    t = fl.get("execution_tx_map", ("const", "?", ""))
+    ok = False
+    got = render(t)[:200]
+    if t[0] == "call" and t[1].endswith("Iterator::collect") and t[2][0][0] == "call" and t[2][0][1].endswith("Iterator::map") and \
+            render(common.strip_iter(t[2][0][2][0])) == "self.instruments.exchanges":
+        crt = common.callable_return(ctx, t[2][0][2][1])
+        look = None
+        if crt is not None:
+            for s_ in mir.subterms(crt):
+                if s_[0] == "call" and mir._strip_generics(s_[1]).endswith(("HashMap::remove", "HashMap::get", "IndexMap::get", "IndexMap::swap_remove", "IndexMap::shift_remove")):
+                    look = s_
+        if crt is not None and look is not None:
+            lk = render(look)
+            alts = sorted(render(a) for a in (crt[1] if crt[0] == "phi" else [crt]))
+            got = {"lookup": lk, "entry": alts}
+            ok = render(look[2][0]) == "self.execution_txs" and render(look[2][1]) == "$1.value" and \
+                alts == sorted(["tuple{0: $1.value, 1: Option::None{}}", "tuple{0: $1.value, 1: Option::Some{0: %s.as:Some.0.1}}" % lk])
+    ctx.check("ExecutionBuilder::build", ok, "every indexed exchange, in index order, is paired with the transmitter registered under its own "
+              "ExchangeId (keyed lookup) or None - whatever the order in which executions were added", got=got, key="keyed-link")
+    ab = ctx.fibody(name="add_execution", self_adt=EB, trait="")
+    ins = [tm for bi, t_, tm in ab.real_calls() if mir._strip_generics(tm[1]).endswith(("HashMap::insert", "IndexMap::insert")) and render(tm[2][0]) == "self.execution_txs"]
+    ok = len(ins) == 1 and render(ins[0][2][1]) == "exchange" and render(mir.mk_proj(ins[0][2][2], ("1",))) == "channel::mpsc_unbounded().0"
+    ctx.check("ExecutionBuilder::add_execution", ok, "the transmitter is registered under the exchange the execution was built for",
+              got=[render(x)[:200] for x in ins], key="registered-by-id")
